@@ -124,8 +124,10 @@ macro_rules! impl_regression {
 
             fn fit(&self, dataset: &DatasetBase<$records, $targets>) -> Result<Self::Object> {
                 let kernel = self.kernel_params().transform(dataset.records());
-                let target = dataset.as_single_targets();
-                let target = target.as_slice().unwrap();
+                // the targets may be a non-contiguous view (reversed / stepped, or an owned array that
+                // inherited such a layout from `map_targets`): copy them in logical order
+                let target = dataset.as_single_targets().to_vec();
+                let target = target.as_slice();
 
                 let ret = match (self.c(), self.nu()) {
                     (Some((c, p)), _) => fit_epsilon(
